@@ -40,10 +40,10 @@ def _check(mi, outcome, val, built=None):
 def mutants(site: int, mut: int, rsel: int, tag: str, vsel: int,
             ksel: int) -> bool:
     """
-    pre: 0 <= site < 28 and 0 <= mut < 7 and 0 <= rsel < 76
+    pre: 0 <= site < 28 and 0 <= mut < 7 and 0 <= rsel < 80
     pre: 1 <= len(tag) <= 40 and tag != '!'
     pre: not tag.startswith('tag:yaml.org,2002:')
-    pre: 0 <= vsel < 14 and 0 <= ksel < 12
+    pre: 0 <= vsel < 17 and 0 <= ksel < 14
     post: __return__
     """
     r = explore(slice_no(0), site, mut, rsel, tag, vsel, ksel, LIM, _check)
@@ -53,10 +53,10 @@ def mutants(site: int, mut: int, rsel: int, tag: str, vsel: int,
 def mutants_reach(site: int, mut: int, rsel: int, tag: str, vsel: int,
                   ksel: int) -> bool:
     """
-    pre: 0 <= site < 28 and 0 <= mut < 7 and 0 <= rsel < 76
+    pre: 0 <= site < 28 and 0 <= mut < 7 and 0 <= rsel < 80
     pre: 1 <= len(tag) <= 40 and tag != '!'
     pre: not tag.startswith('tag:yaml.org,2002:')
-    pre: 0 <= vsel < 14 and 0 <= ksel < 12
+    pre: 0 <= vsel < 17 and 0 <= ksel < 14
     post: __return__
     """
     r = explore(slice_no(0), site, mut, rsel, tag, vsel, ksel, LIM, _check)
@@ -107,9 +107,23 @@ def _cycle_doc(shape: int):
         inner = seq([])
         inner.value.append(seq([inner]))
         return seq([inner])
-    n = mapping([])                     # &a {x: 1, zz: *a}
-    n.value.append((scalar(T_STR, 'x'), scalar('tag:yaml.org,2002:int', '1')))
-    n.value.append((scalar(T_STR, 'zz'), n))
+    if shape == 5:                      # &a {x: 1, zz: *a}
+        n = mapping([])
+        n.value.append((scalar(T_STR, 'x'),
+                        scalar('tag:yaml.org,2002:int', '1')))
+        n.value.append((scalar(T_STR, 'zz'), n))
+        return n
+    if shape == 6:                      # &a {? *a : 1}   (cycle through a key)
+        n = mapping([])
+        n.value.append((n, scalar('tag:yaml.org,2002:int', '1')))
+        return n
+    if shape == 7:                      # &a {? [x, *a] : 1}
+        n = mapping([])
+        n.value.append((seq([scalar(T_STR, 'x'), n]),
+                        scalar('tag:yaml.org,2002:int', '1')))
+        return n
+    n = seq([])                         # &a [{? *a : 1}]
+    n.value.append(mapping([(n, scalar('tag:yaml.org,2002:int', '1'))]))
     return n
 
 
@@ -122,7 +136,7 @@ def _cycles(m, shape) -> bool:
 
 def cycles(m: int, shape: int) -> bool:
     """
-    pre: 0 <= m < 7 and 0 <= shape < 6
+    pre: 0 <= m < 7 and 0 <= shape < 9
     post: __return__
     """
     return _cycles(m, shape)
@@ -130,7 +144,7 @@ def cycles(m: int, shape: int) -> bool:
 
 def cycles_reach(m: int, shape: int) -> bool:
     """
-    pre: 0 <= m < 7 and 0 <= shape < 6
+    pre: 0 <= m < 7 and 0 <= shape < 9
     post: __return__
     """
     return not (_cycles(m, shape) and m == 0 and shape == 0)
@@ -147,7 +161,8 @@ CONDITIONS = [
     {'fn': 'empty_stream', 'quick': 60, 'thorough': 60,
      'bound': 'the empty stream for each of the 16 document types'},
     {'fn': 'cycles', 'quick': 100, 'thorough': 100, 'twin': 'cycles_reach',
-     'bound': '6 self-referential document shapes x 7 document types '
+     'bound': '9 self-referential document shapes (through values, items '
+              'and complex keys) x 7 document types '
               '(Any, List[int], Dict[str, Sub], classes with Any/extra '
               'positions, typed classes, a Union)'},
 ]
